@@ -80,9 +80,13 @@ static int dg_strlist(Dg& g, char** l) {
 }
 
 // ------------------------------------------------------------------ harness-owned crystal structs
+// Caller-built crystals live in ONE fixed slot per task: every crystal a task passes in has the same address as
+// the previous one, as happens in real programs that reuse a stack variable or get a freed block back from malloc
+// (ASan's quarantine would otherwise hide every bug that keys a cache on the address of a caller's struct).
+static Crystal_Struct g_own_slot[MAXTASK];
 struct OwnCrystal {
-  Crystal_Struct cs;
-  OwnCrystal(const CrystalData& d) {
+  Crystal_Struct& cs;
+  OwnCrystal(const CrystalData& d) : cs(g_own_slot[(t_task ? t_task->id : 0) % MAXTASK]) {
     cs.name = d.name_null ? nullptr : strdup(d.name.c_str());
     cs.a = d.cell[0]; cs.b = d.cell[1]; cs.c = d.cell[2]; cs.alpha = d.cell[3]; cs.beta = d.cell[4]; cs.gamma = d.cell[5];
     cs.volume = d.model_volume();
